@@ -119,7 +119,10 @@ def impl(case):
     work = tempfile.mkdtemp(prefix="cd-", dir=os.path.join(VERIF, ".work"))
     try:
         contents = _contents()
-        root = os.path.join(work, "Compose-1.0-[Server]-20240101.0" if case.get("legacy_name") or not case["slash"] else "Compose-1.0-20240101.0")
+        rootname = "Compose-1.0-[Server]-20240101.0" if case.get("legacy_name") or not case["slash"] else "Compose-1.0-20240101.0"
+        if "direct" in case["layouts"] and len(case["layouts"]) >= 2:
+            rootname = "compose"             # the compose directory itself may be called like the sub-directory the library looks for
+        root = os.path.join(work, rootname)
         os.makedirs(root)
         if len(case["layouts"]) % 2 == (1 if case["slash"] else 0):
             # the directory had another life before: a complete compose/ layout with the current names was opened and read at this
@@ -147,6 +150,11 @@ def impl(case):
             for fn, key in PATTERNS[pat].items():
                 with open(os.path.join(md, fn), "w", encoding="utf-8", errors="surrogateescape") as f:
                     f.write(contents[key])
+        if "legacy" in case["layouts"]:
+            # at scale: the version-named directory sits among a few hundred other entries (logs, work files)
+            for j in range(300):
+                with open(os.path.join(root, "%s-%03d.log" % ("build" if j % 2 else "zwork", j)), "w") as f:
+                    f.write("x")
         path = root + ("/" if case["slash"] else "")
         existing = []
         for dp, dns, fns in os.walk(root):
